@@ -81,6 +81,13 @@ package date
 //@ func (Partition).Contains
 //@   ensures result <==> (part.span.Start <= d && d <= part.span.End)
 //
+// Reported: the same periods, the span cut to start with the first of them (nothing else changes).
+//@ func (Partition).Reported
+//@   modifies nothing
+//@   ensures [C02] result.periods == part.periods && result.interval == part.interval && result.span.End == part.span.End
+//@   ensures [C02] @cut: len(part.periods) > 0 ==> result.span.Start == part.periods[0].Start
+//@   ensures [C02] @whole: len(part.periods) == 0 ==> result.span.Start == part.span.Start
+//
 //@ func (Partition).StartDates
 //@   ensures len(result) == len(part.periods) && fresh(result)
 //@   ensures forall k int :: {result[k]} 0 <= k && k < len(result) ==> result[k] == part.periods[k].Start
